@@ -215,3 +215,37 @@ def p2_judge(ctx, res, prefixes, what):
         "a crash between the path-value write and the entry write of ONE configuration store call is in the model (two effects) but is not "
         "injected on the implementation (crash points are store-call boundaries and device calls)",
     ]
+
+
+def p2_extra(ctx, prefixes, what):
+    """for a property whose own pipeline is elsewhere: additionally consume the shared protocol run - monitor failures with
+    one of `prefixes` and model/implementation disagreements on steps tagged with this property"""
+    prop = ctx.prop
+    res = p2_run(ctx)
+    seen = set()
+    concrete = 0
+    for v in res["specviols"]:
+        if not any(v["signature"].startswith(p) for p in prefixes):
+            continue
+        kf = [k for k in vlib.known_findings(prop) if k["status"] == "open" and k["signature"] == v["signature"]]
+        if kf:
+            ctx.known_hits.setdefault(kf[0]["id"], kf[0]["what"])
+            continue
+        concrete += 1
+        if v["signature"] in seen:
+            continue
+        seen.add(v["signature"])
+        ctx.violation("property monitor %s failed on the implementation (protocol run): %s" % (v["signature"], v["detail"]),
+                      {"case": v["id"], "signature": v["signature"], "detail": v["detail"], "history": history_of(ctx.p2_lines, v["id"]),
+                       "how": "harness/cmd/p2 -seed %s: the lines are the observations of the real reconcilers" % ctx.seed})
+    mm = [m for m in res["mismatches"] if ("[" in m["detail"][:3]) and (prop in m["detail"].split("]")[0])]
+    if mm:
+        m = mm[0]
+        ctx.violation("correspondence %s no longer checks: %d step(s) of the real reconcilers are not steps of the model, first: %s"
+                      % (what, len(mm), m["detail"][:900]),
+                      {"broken": "correspondence " + what, "case": m["id"], "history": history_of(ctx.p2_lines, m["id"]),
+                       "all": [x["detail"][:400] for x in mm[:10]]}, no_input=(concrete == 0))
+    st = res["stats"]
+    ctx.coverage["protocol_run"] = {"what": what, "histories": st.get("histories", 0), "steps_validated": st.get("steps.total", 0),
+                                    "crashed_reconciles": st.get("step.crashed", 0), "mismatches_this_property": len(mm),
+                                    "monitors": prefixes, "cached": res.get("cached", False)}
